@@ -8,9 +8,9 @@ use serde_json::{json, Value};
 use std::collections::BTreeSet;
 use std::path::Path;
 
-pub const DIRS: [&str; 8] = ["a", "ab", "a/c", "a/cd", "a/c/e", "b", "a/c/e/g", "abc"];
-pub const EXTRA: [&str; 11] = [
-    "lib", "lib2", "lib/x", "a/f", "a/c/f", "a/c/gen", "ab/f", "b/f", "x.txt", "a/c/e/h", "li",
+pub const DIRS: [&str; 10] = ["a", "ab", "a/c", "a/cd", "a/c/e", "b", "a/c/e/g", "abc", "caf\u{e9}", "caf\u{e9}s"];
+pub const EXTRA: [&str; 13] = [
+    "lib", "lib2", "lib/x", "a/f", "a/c/f", "a/c/gen", "ab/f", "b/f", "x.txt", "a/c/e/h", "li", "caf\u{e9}/f", "caf",
 ];
 
 pub fn setup(root: &Path) {
@@ -18,7 +18,7 @@ pub fn setup(root: &Path) {
         root,
         &[
             "a", "ab", "a/c", "a/cd", "a/c/e", "b", "a/c/e/g", "abc", "lib", "lib2", "a/c/gen",
-            "lib/x",
+            "lib/x", "caf\u{e9}", "caf\u{e9}s",
         ],
         &["x.txt", "a/c/e/h"],
     );
